@@ -37,7 +37,24 @@ LOAD_RULE = ("load engine: 120 scripted cases per unit of scale over 1-3 keys, 6
 LOAD_ASSUME = ["atomicity of hashmap.Compute sections (C15) and of the calls table's get-or-create", "eviction/expiration of a key being loaded is modelled as an invalidation event; the engine exercises it through Invalidate only",
                "timing is used only to decide that a goroutine is blocked (25 ms) — a slow machine can hide a violation, not invent one"]
 
+LIN = dict(engine="lin", scale_quick=2, scale_thorough=40, timeout_quick=900, timeout_thorough=6000)
+DRAIN = dict(engine="drain", scale_quick=2, scale_thorough=30, timeout_quick=900, timeout_thorough=6000, model=False)
+
 PROPS = {
+    "C02": dict(engines=[LIN],
+                rule="lin engine: 1500 cases per unit of scale; 2-6 free-running goroutines x 2-6 operations (Set, SetIfAbsent, GetIfPresent, Compute/ComputeIfAbsent/ComputeIfPresent with "
+                     "write/invalidate/cancel, Invalidate) on 1-3 keys of one cache, unbounded or with MaximumSize 1-3 so that it evicts constantly, a churner goroutine resizing the table underneath; "
+                     "invocation/response stamped with a logical clock, callbacks recording invocations and arguments, automatic removals recorded at the OnAtomicDeletion instant; "
+                     "per key a Wing-Gong search for a linearization against the extracted sequential model; distinct_nontrivial = distinct (bounded, keys, goroutines, ops) shapes",
+                assumptions=["atomicity of hashmap.Get / Compute (C15)", "no expiry calculator (the read-extension of deadlines is a second atomic access)",
+                             "loader-backed Get is covered by the C08/C09 protocol engine", "histories longer than 60 events per key are not searched (none occur)"]),
+    "C14": dict(engines=[DRAIN],
+                rule="drain engine: 400 rounds per unit of scale with the DEFAULT executor: 1-6 writers (Set/SetIfAbsent/Invalidate bursts of 1-12 or 100-500 writes) and 0-2 readers on a cache of "
+                     "maximum 2-21; hook points inside the protocol inject random yields/sleeps (4 perturbation modes); after the calls return NO further cache call is made: only atomic loads of the drain "
+                     "status and write-buffer size until quiescent (3 s limit), then status idle, buffer empty, bound restored, every write linked in the policy, OnDeletion count = OnAtomicDeletion count; "
+                     "distinct_nontrivial = distinct (writers, readers, perturbation, burst) combinations",
+                assumptions=["the Coq theorems are exhaustive over schedules for 1 and 2 initial writer threads only; larger populations are exercised by the engine, not proved",
+                             "sync.Mutex, goroutine creation and the memory model of sync/atomic are modelled", "InvalidateAll and the 100-refusal caller-runs fallback are outside the model"]),
     "C08": dict(engines=[LOAD], rule=LOAD_RULE, assumptions=LOAD_ASSUME),
     "C09": dict(engines=[LOAD], rule=LOAD_RULE, assumptions=LOAD_ASSUME),
     "C15": dict(engines=[HMAP],
